@@ -4,6 +4,8 @@ import CoercionModel.Model.Skeletons
 import CoercionModel.Generated.F10
 import CoercionModel.Proofs.FixFull
 import CoercionModel.Proofs.Translated
+import CoercionModel.Proofs.TranslatedPlan
+import CoercionModel.Proofs.FixPlan
 set_option linter.unusedSimpArgs false
 /-
   C09 — After a crash, durably finished work is never executed again.
@@ -126,5 +128,43 @@ theorem translated_fixAction (a : Action) : Generated.T1.fixAction (a.attempts.l
 theorem translated_fixChecks (o : Option Checks) : Generated.T1.fixChecksOpt o = o.map Fix.fixChecks := Translated.fixChecksOpt_eq o
 /-- Go's `fixSeq` (three loops with counters, `now` = time.Now()) is `fixSeqFull`, hence `fixSeq` whenever nothing is Stopped -/
 theorem translated_fixSeq (now : Nat) (q : Sequence) : Generated.T1.fixSeq now q = Fix.fixSeqFull now q := Translated.fixSeq_eq now q
+
+/-! ### block level: `fixBlock` (translated by T6 on every run) repairs AND resumes — what it may execute
+
+`exec` stands for `States.execSeq`. The theorems are about `Generated.T6.fixBlock`, i.e. about what recovery.go says now. -/
+
+/-- the translated `fixBlock` is Model/FixPlan.fixBlockFull -/
+theorem translated_fixBlock (exec : Sequence → Sequence × Bool) (now : Nat) (b : Block) :
+    Generated.T6.fixBlock exec now b = Fix.fixBlockFull exec now b := Translated.fixBlock_eq exec now b
+
+/-- During the repair of a block `execSeq` is consulted only on sequences that are Running after their own repair:
+    two executors that agree on Running sequences give the same block. A sequence with a durable terminal status
+    (Completed, Failed, Stopped) or one reset to NotStarted is never executed by the repair. -/
+theorem block_repair_executes_only_running (exec exec' : Sequence → Sequence × Bool) (now : Nat) (b : Block)
+    (h : ∀ q : Sequence, q.status = .running → exec q = exec' q) :
+    Generated.T6.fixBlock exec now b = Generated.T6.fixBlock exec' now b := by
+  rw [translated_fixBlock, translated_fixBlock]; exact Fix.fixBlock_exec_only_running exec exec' now b h
+
+/-- a block that is not Running in the store is returned as it is (nothing repaired, nothing executed) -/
+theorem block_repair_only_running_blocks (exec : Sequence → Sequence × Bool) (now : Nat) (b : Block) (h : b.status ≠ .running) :
+    Generated.T6.fixBlock exec now b = b := by
+  rw [translated_fixBlock]; exact Fix.fixBlock_only_running exec now b h
+
+/-- every sequence of the repaired block is the stored one, its repaired-and-resumed image, or that image marked Stopped -/
+theorem block_repair_seqs (exec : Sequence → Sequence × Bool) (now : Nat) (b : Block) :
+    (Generated.T6.fixBlock exec now b).seqs = b.seqs ∨ (Generated.T6.fixBlock exec now b).seqs = b.seqs.map (Fix.resumeSeq exec now) ∨
+      (Generated.T6.fixBlock exec now b).seqs = (b.seqs.map (Fix.resumeSeq exec now)).map Fix.stopRunning := by
+  rw [translated_fixBlock]; exact Fix.fixBlock_seqs exec now b
+
+/-- … and the resumed image of a sequence that was not Running in the store is the sequence itself -/
+theorem finished_sequence_not_resumed (exec : Sequence → Sequence × Bool) (now : Nat) (q : Sequence) (h : q.status ≠ .running) :
+    Fix.resumeSeq exec now q = q := Fix.resumeSeq_untouched exec now q h
+
+/-- non-vacuity: a Running block with one durably Completed and one in-flight sequence — the executor that would
+    "fail everything it is given" is consulted for the in-flight one only -/
+example :
+    let failAll : Sequence → Sequence × Bool := fun q => ({ q with status := .failed }, true)
+    let b : Block := { status := .running, seqs := [{ id := 1, status := .completed }, { id := 2, status := .running, actions := [{ status := .running, attempts := [{ tEnd := 0 }] }, { status := .completed, attempts := [{ tEnd := 5 }] }] }] }
+    ((Generated.T6.fixBlock failAll 9 b).seqs.map (·.status)) = [.completed, .failed] := by decide
 
 end Coercion.C09
